@@ -2,7 +2,7 @@
 (***************************************************************************)
 (* C03: the real GENERIC decoders, instantiated with checker-supplied      *)
 (* arithmetics, judged by the textbook schedules of BP.tla.                *)
-(*  Decode {sched, rows, n, llrs, limit, call, verdict, word, iters}       *)
+(*  Decode {sched, rows, n, llrs (in quarters), limit, call, verdict, ...}  *)
 (*     real flooding::Decoder<IntMinSum> / horizontal_layered::Decoder<..> *)
 (*     (IntMinSum = MinSum.tla with differently scaled value types), one   *)
 (*     long-lived decoder object per short history of calls;               *)
@@ -19,7 +19,11 @@ EXTENDS TraceKit, MinSum
 
 E8 == INSTANCE BP8
 
-B == INSTANCE BP WITH Quant <- MSQuant, Hard <- MSHard, CheckMsg <- MSCheckMsg, VarTotal <- MSVarTotal,
+\* channel LLRs are logged in QUARTERS (llrs[v] = 4 * LLR): the checker's arithmetic quantises with f64::round (half away from
+\* zero), so a small positive LLR becomes the working value 0 - whose hard decision is 1 - while the zero-iteration test of the
+\* textbook schedule looks at the sign of the CHANNEL value
+Q4(x) == IF x >= 0 THEN (x + 2) \div 4 ELSE -((2 - x) \div 4)
+B == INSTANCE BP WITH Quant <- Q4, Hard <- MSHard, CheckMsg <- MSCheckMsg, VarTotal <- MSVarTotal,
                       VarMsg <- MSVarMsg, ToMsg <- MSToMsg, ZeroMsg <- 0, ResetOutput <- TRUE
 
 VARIABLES l
